@@ -48,6 +48,13 @@ POSITIONS = {
     "root_ref": ("", "let x: {T} = {V}; let v = &x;", "v", "{P}"),
     "root_field_expr": ("#[derive(Debug, Clone)] struct W {{ f: {T}, g: i32 }}", "let w = W {{ f: {V}, g: 1 }};", "w.f", "{P}"),
     "root_call": ("fn mk() -> {T} {{ {V} }}", "", "mk()", "{P}"),
+    # computed asserted expressions whose value is a REFERENCE (the pattern must see it as it sees a reference variable):
+    # a function call, a method call, an Option unwrapped by reference, a block
+    "root_call_ref": ("fn pick(x: &{T}) -> &{T} {{ x }}", "let x: {T} = {V};", "pick(&x)", "{P}"),
+    "root_method_ref": ("#[derive(Debug, Clone)] struct W {{ f: {T}, g: i32 }} impl W {{ fn get_ref(&self) -> &{T} {{ &self.f }} }}",
+                        "let w = W {{ f: {V}, g: 1 }};", "w.get_ref()", "{P}"),
+    "root_unwrap_ref": ("", "let o: Option<{T}> = Some({V});", "o.as_ref().unwrap()", "{P}"),
+    "root_block_ref": ("", "let x: {T} = {V};", "{{ let r = &x; r }}", "{P}"),
     # the asserted expression is a binary expression (lower precedence than the `&`, `.` and `as` the templates put around it);
     # only for the targets that have such an identity (LOWPREC)
     "root_lowprec": ("", "let x: {T} = {V};", "<LOWPREC>", "{P}"),
